@@ -31,7 +31,7 @@ def plan(ctx):
     return dict(flavors=["oid/oid", "path/oidf", "oidf/path", "path/path"], resolvers=RESOLVERS,
                 fams=[("conf2", "conf", 2, None, None), ("mix2", "mix", 2, None, None), ("conf3", "conf", 3, None, 8000),
                       ("std2", "std", 2, None, None), ("conf5", "conf", 5, "sim", 4000),
-                      ("conf3tail", "conf", 3, "tail", None), ("two3tail", "two", 3, "tail", 20000)],
+                      ("conf3tail", "conf", 3, "tail", None), ("two3tail", "two", 3, "tail", 4000)],
                 corrupt=6000)
 
 
@@ -97,7 +97,7 @@ def run(ctx):
         cases, full = sc.slice_cases(cases, limit, ctx.seed * 32452843 + nops)
         exhaustive = exhaustive and full
         pool += cases
-        res = p["resolvers"] if not (mode == "tail" and ctx.tier == "quick") else [None]
+        res = p["resolvers"] if mode != "tail" else ([None] if ctx.tier == "quick" else [None, ["pick", 0, True]])
         sc.run_family(ctx, sc.with_flavors(with_resolvers(cases, res), p["flavors"]), "conflict family %s" % name, CLAUSES, extra_sig=shape)
     cc, _ = sc.slice_cases(corrupt_cases([c for c in pool if c["base"] == "std"]), p["corrupt"], ctx.seed + 17)
     sc.run_family(ctx, sc.with_flavors(cc, p["flavors"]), "corrupt-read placements", CLAUSES, extra_sig=shape)
